@@ -788,6 +788,96 @@ fn cancelled_then_finalized(w: &mut World, rep: &mut Report, rng: &mut Rng, prop
 	cleanup(w);
 }
 
+/// Proof-carrying sends in the call orders real callers use. (a) The command line's synchronous send and
+/// `init_send_tx` with `send_args` reserve with the recipient's *reply*: tx_lock_outputs(reply), finalize_tx(reply).
+/// (b) The sender reserves with its own slate, but its log already holds a *received* entry with the slate's id
+/// (the recipient bounced the sender's slate to the sender's own foreign API). In both, a reply whose proof was
+/// stripped, or re-addressed to and signed by another key, must be refused.
+fn proof_in_callers_orders(w: &mut World, rep: &mut Report, rng: &mut Rng, prop: &str) {
+	let other = crate::gen::ed_keypair(&[0x47u8; 32]);
+	for order in ["locked-with-the-reply", "own-slate-bounced-to-the-senders-foreign-api"].iter() {
+		for variant in ["honest", "proof stripped", "proof signed by another key, address replaced to match"].iter() {
+			fund(w);
+			let recipient_addr = match owner::get_slatepack_address(w.wallets[1].inst.clone(), None, 0) {
+				Ok(a) => a,
+				Err(_) => return,
+			};
+			let amount = 1_000_000_000 + rng.below(5_000_000_000);
+			let case = json!({"job": prop, "scenario": "proof-carrying send", "call_order": order, "reply": variant, "amount": amount.to_string()});
+			let wal = &w.wallets[0];
+			let r = (|| -> Result<(Slate, Slate), libwallet::Error> {
+				let s1 = wal.init_send(InitTxArgs { amount, minimum_confirmations: 1, num_change_outputs: 1, selection_strategy_is_use_all: false, payment_proof_recipient_address: Some(recipient_addr.clone()), ..Default::default() })?;
+				let s2 = w.wallets[1].receive(&s1, None)?;
+				Ok((s1, s2))
+			})();
+			let (s1, s2) = match r {
+				Ok(x) => x,
+				Err(e) => {
+					rep.count(&format!("proof-callers-order:setup-refused:{}", err_kind(&e)));
+					cleanup(w);
+					continue;
+				}
+			};
+			let mut reply = s2.clone();
+			match *variant {
+				"proof stripped" => reply.payment_proof = None,
+				"honest" => {}
+				_ => {
+					// the final kernel excess is the sum of both participants' public excesses: the sender's is in the
+					// slate it sent, the recipient's in its reply
+					let kc = wal.keychain();
+					let keys: Vec<&grin_util::secp::key::PublicKey> = s1.participant_data.iter().chain(reply.participant_data.iter()).map(|p| &p.public_blind_excess).collect();
+					let ex = grin_util::secp::key::PublicKey::from_combination(kc.secp(), keys).ok().and_then(|k| Commitment::from_pubkey(kc.secp(), &k).ok());
+					if let (Some(pp), Some(ex)) = (reply.payment_proof.as_mut(), ex) {
+						let mut msg = amount.to_be_bytes().to_vec();
+						msg.extend_from_slice(&ex.0);
+						msg.extend_from_slice(&pp.sender_address.to_bytes());
+						pp.receiver_signature = Some(other.sign(&msg));
+						pp.receiver_address = other.public;
+					}
+				}
+			}
+			let lock = if *order == "locked-with-the-reply" {
+				wal.lock_outputs(&reply)
+			} else {
+				let planted = wal.receive(&s1, None);
+				rep.count(&format!("proof-callers-order:own-slate-bounced:{}", if planted.is_ok() { "accepted" } else { "refused" }));
+				wal.lock_outputs(&s1)
+			};
+			if let Err(e) = lock {
+				rep.count(&format!("proof-callers-order:{}:lock-refused:{}", order, err_kind(&e)));
+				cleanup(w);
+				let _ = w.wallets[1].cancel(None, Some(s1.id));
+				continue;
+			}
+			rep.eval();
+			match catch(|| wal.finalize(&reply)) {
+				Err((loc, msg)) => rep.violation(&format!("{}|panic|{}", prop, loc), &msg, case),
+				Ok(Err(e)) => {
+					rep.count(&format!("proof-callers-order:{}:{}:refused", order, if *variant == "honest" { "honest" } else { "altered" }));
+					rep.distinct(&("proof-callers-order", *order, *variant, err_kind(&e)));
+				}
+				Ok(Ok(_)) => {
+					if *variant == "honest" {
+						rep.count(&format!("proof-callers-order:{}:honest:accepted", order));
+					} else {
+						let exported = owner::retrieve_payment_proof(wal.inst.clone(), None, &None, false, None, Some(s1.id)).ok().map(|p| format!("{}", p.recipient_address));
+						rep.violation(
+							&format!("{}|{}|{}|altered-reply-accepted", prop, if *variant == "proof stripped" { "proof-stripped" } else { "proof-signed-by-another-key" }, order),
+							&format!("finalize_tx accepted a reply whose proof was altered ({}) for a send that requested a proof from {}; the proof then exported names {:?}", variant, recipient_addr, exported),
+							case,
+						);
+					}
+				}
+			}
+			cleanup(w);
+			let _ = w.wallets[1].cancel(None, Some(s1.id));
+			// (the bounced copy is a received entry of the sender: release it too)
+			let _ = w.wallets[0].cancel(None, Some(s1.id));
+		}
+	}
+}
+
 /// A late-locked send driven in the order the command-line `send` uses: init_send_tx(late_lock), then
 /// tx_lock_outputs (the CLI calls it after every init), the recipient's reply, finalize_tx - retried once if
 /// refused. Whatever is returned from finalization must spend exactly inputs reserved for that send.
@@ -1003,6 +1093,9 @@ pub fn run(a: &Args, prop: &'static str) {
 	}
 	if proof_focus {
 		named_account_scenario(&mut w, &mut rep, &mut rng, prop, a.shard % 2 == 1);
+		if a.shard % 4 == 0 {
+			proof_in_callers_orders(&mut w, &mut rep, &mut rng, prop);
+		}
 	}
 	if let Some(pr) = last_proof {
 		proof_after_reorg(&mut w, &mut rep, &pr);
